@@ -58,6 +58,19 @@ class Module:
                 self.tree = ast.parse(self.source, filename=rel)
         except SyntaxError as e:
             raise AnalysisError(f"cannot parse {rel}: {e}")
+        # inventory-anchored normalisation (sa/normalize.py): a no-op on the reference tree
+        self.normalized = False
+        if os.environ.get("VERIF_NO_NORMALIZE") != "1":
+            try:
+                from .normalize import normalize_tree
+                self.normalized = normalize_tree(self.tree, rel)
+            except Exception:
+                # a defect of the normaliser must never change a verdict: fall back to the tree as written
+                import warnings
+                with warnings.catch_warnings():
+                    warnings.simplefilter("ignore")
+                    self.tree = ast.parse(self.source, filename=rel)
+                self.normalized = False
         self.parents: Dict[ast.AST, ast.AST] = {}
         for p in ast.walk(self.tree):
             for c in ast.iter_child_nodes(p):
